@@ -874,10 +874,42 @@ func genClasses(r *Rng, n, k int) classdef.Table {
 	return t
 }
 
+// genClassesGaps draws a class table over up to five class numbers in which some numbers are not
+// used: the notation writes an unused class as an empty list (`first A, , B;`, `second , C;`).
+// Gaps occur at the start (class 1 unused), in the middle and several in a row; the highest
+// number is always used.
+func genClassesGaps(r *Rng, n int) classdef.Table {
+	k := r.Range(2, 5)
+	t := classdef.Table{}
+	used := make([]bool, k+1)
+	used[k] = true
+	for c := 1; c < k; c++ {
+		used[c] = r.Chance(2, 5)
+	}
+	for c := 1; c <= k; c++ {
+		if !used[c] {
+			continue
+		}
+		for cnt := r.Range(1, 2); cnt > 0; cnt-- {
+			for tries := 0; tries < 50; tries++ {
+				g := glyph.ID(r.Intn(n))
+				if _, taken := t[g]; !taken {
+					t[g] = uint16(c)
+					break
+				}
+			}
+		}
+	}
+	if len(t) == 0 {
+		t[glyph.ID(r.Intn(n))] = uint16(k)
+	}
+	return t
+}
+
 // genGposLookup draws a GPOS lookup of type 1, 2, 3 or 4 inside the language's domain.
 func genGposLookup(c *Ctx, n int) *gtab.LookupTable {
 	r := c.Rng
-	t := Pick(r, []int{1, 1, 2, 2, 3, 4})
+	t := Pick(r, []int{1, 1, 2, 2, 2, 3, 4})
 	l := &gtab.LookupTable{Meta: &gtab.LookupMetaInfo{LookupType: uint16(t), LookupFlags: gtab.LookupFlags(r.Intn(16))}}
 	k := Pick(r, []int{1, 1, 2, 3})
 	c.Stat("rt.subtables", fmt.Sprint(k))
@@ -936,6 +968,14 @@ func genGposLookup(c *Ctx, n int) *gtab.LookupTable {
 		default:
 			c.Stat("rt.form", "gpos2.2")
 			c1, c2 := genClasses(r, n, r.Range(1, 2)), genClasses(r, n, r.Range(1, 3))
+			if r.Chance(1, 2) {
+				c1 = genClassesGaps(r, n)
+				c.Stat("rt.gpos2.2 first", "unused class numbers")
+			}
+			if r.Chance(1, 2) {
+				c2 = genClassesGaps(r, n)
+				c.Stat("rt.gpos2.2 second", "unused class numbers")
+			}
 			adj := make([][]*gtab.PairAdjust, c1.NumClasses())
 			for i := range adj {
 				adj[i] = make([]*gtab.PairAdjust, c2.NumClasses())
@@ -1050,6 +1090,9 @@ var dslGposSnippets = []string{
 	"GPOS2:\n\t/A B/\n\tfirst A, B;\n\tsecond C;\n\t_, x+1;\n\tdx+2, _ & y+1;\n\t_, _;",
 	"GPOS2: /A-C/ first A, , B; second C D, E;\n _, x+1, y+2; dx+2, _ & y+1, _; _, _, _; x+1,x+2,x+3; || A B -> _",
 	"GPOS1: [A-C] -> _ || [D] -> x+99999999999999999999", "GPOS2: A -> x+1",
+	"GPOS2: /A B/ first A, , B; second , C, , , D;\n _, x+1, _, _, _, y+2;\n _, _, _, _, _, _;\n _, _, _, _, _, _;\n dx+1, _, _, _, _, _ & x+3;",
+	"GPOS2: /E/ first , , E; second E, , V;\n _, _, _, _; _, _, _, _; _, _, _, _; _, x+1, _, y+5;",
+	"GPOS2: /A/ first A; second , , ;\n _; x+1;",
 	"GPOS3:\n\tA: 1,2 to 3,4;\n\tB: -1,-2 to 0,0", "GPOS3: -rtl A 1,2 to 3,4; A: 5,6 to -7,8 || B: 0,0 to 0,0\nGSUB1: A->B",
 	"GPOS3: A B: 1,2 to 3,4", "GPOS3: : 1,2 to 3,4", "GPOS3: A: 1,2 too 3,4", "GPOS3: A: 1 2 to 3,4", "GPOS3: M: 40000,2 to 3,4",
 	"GPOS4:\n\tmark M: 0@1,2;\n\tmark N: 1@3,4;\n\tbase A: @5,6 @7,8;\n\tbase B: @-1,-2 @0,0;",
